@@ -1,8 +1,27 @@
 import BareModel.Proto
 import BareModel.SyntaxJson
 import BareModel.ExprParse
+import BareModel.Print
 
 open PJson Syntax ExprParse
+
+/-- tag of the first reason (pre-order) a tree is outside `Print.printable`, for the histogram of the `print-parse` stream -/
+partial def whyNot : Expr → Option String
+  | .number q => if Print.numOk q then none else some (if q.num < 0 then "negative-number" else "non-decimal-number")
+  | .string _ => none
+  | .variable n =>
+      if Print.varOk n then none
+      else if !Print.nameOk n then some "reserved-name"
+      else
+        let cs := n.render.toList
+        some (if cs.isEmpty then "empty-name" else if cs.getLast? == some '\\' then "name-ends-in-backslash" else "name-starts-with-blank")
+  | .function n args =>
+      if !Print.fnOk n then some "bad-function-name" else args.findSome? whyNot
+  | .binary op l r =>
+      if !Print.precOkL op l then some "precedence-left" else if !Print.precOkR op r then some "precedence-right"
+      else (whyNot l).orElse (fun _ => whyNot r)
+  | .unary _ e => if !Print.isOperandB e then some "unary-of-binary" else whyNot e
+  | .group e => whyNot e
 
 def handleC02 (j : PJson) : PJson :=
   match j.strD "op" with
@@ -17,6 +36,16 @@ def handleC02 (j : PJson) : PJson :=
       match parseExpr (j.strD "text") with
       | .ok e => mk [("expr", exprToJson e)]
       | .error err => mk [("error", .str err.error), ("column", .num err.column)]
+  | "print" =>
+      -- the canonical text of a tree (`Print.printExpr`), whether `C02.parse_print` applies to it (`Print.printable`), and
+      -- the same token sequence with the pad `pad` (blanks) in front of every token and at the end (`Print.printPad`)
+      match (j.get? "expr").bind exprOfJson with
+      | some e =>
+          let pad := (j.strD "pad").toList
+          mk [("text", .str (Print.printExpr e)), ("printable", .bool (Print.printable e)),
+              ("padded", .str (String.ofList (Print.printPad pad e ++ pad))),
+              ("why", .str ((whyNot e).getD "ok"))]
+      | none => mk [("bad", .str "print request")]
   | op => mk [("bad", .str ("unknown op " ++ op))]
 
 def main : IO Unit := Proto.run handleC02
